@@ -42,6 +42,12 @@ impl TopicModel {
 pub struct Discrepancy {
     pub class: &'static str,
     pub detail: String,
+    /// the observation is explained by entries having vanished (fewer / later entries
+    /// than expected, a lower count), nothing foreign, duplicated or reordered
+    pub pure_loss: bool,
+    /// the observation is explained by the cursor having moved backwards (already
+    /// consumed entries delivered / counted again), nothing lost or foreign
+    pub pure_redelivery: bool,
 }
 
 #[derive(Clone)]
@@ -67,7 +73,13 @@ pub struct SymC {
 }
 
 fn d(class: &'static str, detail: String) -> Discrepancy {
-    Discrepancy { class, detail }
+    Discrepancy { class, detail, pure_loss: false, pure_redelivery: false }
+}
+fn dlr(pure_redelivery: bool, class: &'static str, detail: String, pure_loss: bool) -> Discrepancy {
+    Discrepancy { class, detail, pure_loss, pure_redelivery }
+}
+fn dl(class: &'static str, detail: String, pure_loss: bool) -> Discrepancy {
+    Discrepancy { class, detail, pure_loss, pure_redelivery: false }
 }
 
 impl Model {
@@ -258,9 +270,10 @@ impl Model {
                         if tm.cands.contains(&n) {
                             tm.cands = [n].into_iter().collect();
                         } else {
-                            out.push(d(
+                            out.push(dl(
                                 "read.empty",
                                 format!("read_next returned None but {} entries are unconsumed", tm.unconsumed_min()),
+                                true,
                             ));
                         }
                     }
@@ -367,7 +380,12 @@ impl Model {
                             .filter(|&j| n - j == v.len() && (0..v.len()).all(|i| tm.log[j + i].ent == v[i]))
                             .collect();
                         if nc.is_empty() {
-                            out.push(d(
+                            let hi = tm.cands.iter().max().copied().unwrap_or(0);
+                            let loss = v.len() < n - hi && (0..v.len()).all(|i| tm.log[n - v.len() + i].ent == v[i]);
+                            let lo = tm.cands.iter().min().copied().unwrap_or(0);
+                            let redeliv = v.len() > n - lo && v.len() <= n && (0..v.len()).all(|i| tm.log[n - v.len() + i].ent == v[i]);
+                            out.push(dlr(
+                                redeliv,
                                 "read.order",
                                 format!(
                                     "drain returned {} entries {:?}; expected the {}..{} unconsumed entries {}",
@@ -377,6 +395,7 @@ impl Model {
                                     tm.unconsumed_max(),
                                     describe_next(tm)
                                 ),
+                                loss,
                             ));
                         }
                         tm.cands = [n].into_iter().collect();
@@ -433,6 +452,10 @@ impl Model {
             Op::Close { inst } => {
                 self.sym.open[*inst as usize % 3] = None;
             }
+            Op::OpenKey { .. } => {
+                self.sym.open[0] = Some((0, 0));
+                self.sym.cur = 0;
+            }
         }
 
         if matches!(op, Op::Append { .. } | Op::Batch { .. } | Op::BatchN { .. } | Op::AppendLongTopic { .. })
@@ -452,7 +475,10 @@ impl Model {
                     let c = obs.counts[t as usize] as usize;
                     let ok = tm.cands.iter().any(|&j| tm.log.len() - j == c);
                     if !ok {
-                        out.push(d(
+                        let lower = tm.cands.iter().all(|&j| c < tm.log.len() - j);
+                        let higher = c <= tm.log.len() && tm.cands.iter().all(|&j| c > tm.log.len() - j);
+                        out.push(dlr(
+                            higher,
                             "count",
                             format!(
                                 "after {}: count({}) = {} but appended-consumed = {}",
@@ -465,6 +491,7 @@ impl Model {
                                     format!("{}..{}", tm.unconsumed_min(), tm.unconsumed_max())
                                 }
                             ),
+                            lower,
                         ));
                     }
                 }
